@@ -14,19 +14,19 @@ Otherwise no 101 is sent, an HTTP error is written, the transport is closed and 
 returned.
 
 The theorems are about `Hs.serverDecide` / `Hs.upgradeFromConn` (Model/Handshake.lean), whose input
-is the request as `http.ReadRequest` parsed it; `get` is `http.Header.Get` (the FIRST line of that
-name).  `SHA-1` and `base64` are the functions of Spec/Sha1.lean and Spec/Base64.lean.
+is the request as `http.ReadRequest` parsed it; `vals` is `http.Header.Values` (all the lines of that
+name), `get` is `http.Header.Get` (the first one).  `SHA-1` and `base64` are the functions of
+Spec/Sha1.lean and Spec/Base64.lean.
 
-Where the code differs from the statement read literally, the literal statement is kept as a comment,
-a witness theorem exhibits the difference and the strongest true form is proved:
+The decision clause holds as stated: `upgrade_iff` has the TOKEN condition on the `Connection`
+header (`HasToken`: an element of the comma-separated, trimmed values of ANY `Connection` line equal
+to `upgrade` up to ASCII letter case) and the sub-protocol condition over ALL
+`Sec-WebSocket-Protocol` lines (`offered`).
 
-* "containing the upgrade *token*": the code tests for the *substring* `upgrade` in the lower-cased
-  first `Connection` line.  `upgrade_iff` is stated with the substring; `token_present_accepts` and
-  `no_substring_rejects` bound the difference, `substring_not_token_accepted` is the witness.
-* only the first line of a repeated header is read (`first_connection_line_only`,
-  `first_protocol_line_only`): a request that is valid when its lines are combined (RFC 7230 3.2.2,
-  RFC 6455 4.1 for Sec-WebSocket-Protocol) is refused.
-* "any letter case" is Unicode simple case folding (`nonascii_fold_accepted`).
+Remaining latitude / limitations, each with a witness theorem:
+* `Upgrade` and `Sec-WebSocket-Version` are read from their first line only and compared as a whole
+  (`upgrade_first_line_exact`): `Upgrade: h2c, websocket`, or `websocket` on a second line, is refused.
+* "any letter case" of `Upgrade: websocket` is Unicode simple case folding (`nonascii_fold_accepted`).
 * "extra headers that cannot override those fields" holds (`response_fields`: the fields the code
   writes come first, and for keys set through `http.Header`'s methods no extra line bears a protected
   name); for keys put into the map directly in another spelling an extra, empty line of a protected
@@ -43,74 +43,37 @@ open Sha1 (asc)
 
 /-- **C10, decision.**  For every request, option set, authorisation result and negotiated
 extension: the server accepts iff the callback agreed, the method is `GET`, the version is exactly
-`13`, the (first) `Connection` value contains `upgrade` in any ASCII letter case, the (first)
-`Upgrade` value is `websocket` up to case folding, the key is not empty, and the server lists no
-sub-protocols or one of them is among the comma-separated, trimmed elements the client offered. -/
+`13`, some `Connection` line has `upgrade` (any ASCII letter case, surrounding white space ignored)
+among its comma-separated elements, the (first) `Upgrade` value is `websocket` up to case folding,
+the key is not empty, and the server lists no sub-protocols or one of them is among the
+comma-separated, trimmed elements of the client's `Sec-WebSocket-Protocol` lines. -/
 theorem upgrade_iff (o : ServerOpt) (r : Request) (auth : Bool) (ext : Option Str) :
     (serverDecide o r auth ext).isAccept = true ↔
       (auth = true ∧ r.method = asc "GET" ∧ get r.header kVersion = asc "13" ∧
-       asc "upgrade" <:+: lower (get r.header kConnection) ∧
+       HasToken (vals r.header kConnection) (asc "upgrade") ∧
        foldEq (get r.header kUpgrade) (asc "websocket") = true ∧
        get r.header kKey ≠ [] ∧
-       (o.subProtocols = [] ∨ ∃ p, p ∈ o.subProtocols ∧ p ∈ split (get r.header kProtocol))) := by
+       (o.subProtocols = [] ∨ ∃ p, p ∈ o.subProtocols ∧ p ∈ offered (vals r.header kProtocol))) := by
   rw [isAccept_iff, checksPass_iff]
-  unfold SubprotocolOk
+  unfold SubprotocolOk offer
   simp only [and_assoc]
 
-/- The statement's own reading of the `Connection` clause:
-     accept ↔ … ∧ hasToken (get r.header kConnection) "upgrade" ∧ …
-   is false from left to right (`substring_not_token_accepted`).  The two directions that do hold: -/
-
-/-- **C10, token reading, must-accept direction.**  If `upgrade` is one of the comma-separated
-elements of the `Connection` value (any case, surrounding white space ignored) and every other
-condition holds, the request is accepted. -/
-theorem token_present_accepts (o : ServerOpt) (r : Request) (auth : Bool) (ext : Option Str)
-    (hauth : auth = true) (hm : r.method = asc "GET") (hv : get r.header kVersion = asc "13")
-    (hc : hasToken (get r.header kConnection) (asc "upgrade"))
-    (hu : foldEq (get r.header kUpgrade) (asc "websocket") = true) (hk : get r.header kKey ≠ [])
-    (hs : o.subProtocols = [] ∨ ∃ p, p ∈ o.subProtocols ∧ p ∈ split (get r.header kProtocol)) :
-    (serverDecide o r auth ext).isAccept = true :=
-  (upgrade_iff o r auth ext).2 ⟨hauth, hm, hv, (contains_iff_infix _).1 (token_imp_contains hc), hu, hk, hs⟩
-
-/-- **C10, token reading, must-reject direction.**  A request whose `Connection` value does not even
-contain the letters `upgrade` is refused, whatever else it carries. -/
-theorem no_substring_rejects (o : ServerOpt) (r : Request) (auth : Bool) (ext : Option Str)
-    (hc : ¬ asc "upgrade" <:+: lower (get r.header kConnection)) :
-    (serverDecide o r auth ext).isAccept = false := by
-  rw [Bool.eq_false_iff]
-  intro h
-  exact hc ((upgrade_iff o r auth ext).1 h).2.2.2.1
-
-/-- **Witness (difference from the statement).**  `Connection: upgradex` has no `upgrade` token, yet
-the request is accepted. -/
-theorem substring_not_token_accepted :
-    ¬ hasToken (asc "upgradex") (asc "upgrade") ∧
-    (serverDecide ⟨[], []⟩ (sampleRequest [asc "upgradex"] [asc "websocket"] []) true none).isAccept = true := by
+/-- **Limitation (first line, whole value).**  `Upgrade` is not treated as a list: `websocket` on a
+second `Upgrade` line, or as the second element of one line, is refused (RFC 7230 6.7 defines
+`Upgrade` as a comma-separated list; the property's statement says "Upgrade: websocket"). -/
+theorem upgrade_first_line_exact :
+    (serverDecide ⟨[], []⟩ (sampleRequest [asc "Upgrade"] [asc "h2c", asc "websocket"] []) true none).isAccept = false ∧
+    (serverDecide ⟨[], []⟩ (sampleRequest [asc "Upgrade"] [asc "h2c, websocket"] []) true none).isAccept = false := by
   decide +kernel
 
-/-- **Witness (difference from RFC 7230 3.2.2).**  `Connection: keep-alive` followed by a second line
-`Connection: Upgrade` is refused, although the same two values on one line are accepted. -/
-theorem first_connection_line_only :
-    (serverDecide ⟨[], []⟩ (sampleRequest [asc "keep-alive", asc "Upgrade"] [asc "websocket"] []) true none).isAccept = false ∧
-    (serverDecide ⟨[], []⟩ (sampleRequest [asc "keep-alive, Upgrade"] [asc "websocket"] []) true none).isAccept = true := by
-  decide +kernel
-
-/-- **Witness (difference from RFC 6455 4.1).**  A sub-protocol offered on a second
-`Sec-WebSocket-Protocol` line is not seen: the handshake fails although the protocol is shared. -/
-theorem first_protocol_line_only :
-    serverDecide ⟨[asc "chat"], []⟩ (sampleRequest [asc "Upgrade"] [asc "websocket"] [asc "mqtt", asc "chat"]) true none
-      = .reject .subprotocol ∧
-    (serverDecide ⟨[asc "chat"], []⟩ (sampleRequest [asc "Upgrade"] [asc "websocket"] [asc "mqtt, chat"]) true none).isAccept = true := by
-  decide +kernel
-
-/-- **Witness ("any letter case" is Unicode folding).**  `Upgrade: websocKet` spelled with U+212A
+/-- **Latitude ("any letter case" is Unicode folding).**  `Upgrade: websocKet` spelled with U+212A
 KELVIN SIGN (bytes E2 84 AA) in place of `k` is accepted. -/
 theorem nonascii_fold_accepted :
     (serverDecide ⟨[], []⟩
       (sampleRequest [asc "Upgrade"] [asc "websoc" ++ [0xE2, 0x84, 0xAA] ++ asc "et"] []) true none).isAccept = true := by
   decide +kernel
 
-/-- **Witness (configuration that bypasses `http.Header`'s methods).**  A key written into the
+/-- **Limitation (configuration that bypasses `http.Header`'s methods).**  A key written into the
 `ResponseHeader` map in the RFC's spelling `Sec-WebSocket-Protocol` — not Go's canonical form
 `Sec-Websocket-Protocol` — survives `deleteProtectedHeaders`; `WithExtraHeader` then emits it with the
 value `Get` finds under the canonical key, i.e. none.  The 101 response carries an empty
@@ -128,7 +91,7 @@ status line are, in this order: `Upgrade: websocket`, `Connection: Upgrade`, the
 extension was negotiated, `Sec-WebSocket-Accept: base64(SHA-1(key ++ GUID))`, a
 `Sec-WebSocket-Protocol` line iff the server lists sub-protocols, and then the extra lines.  The
 sub-protocol sent (= the one the connection exposes, `sp`) is the FIRST entry of the server's list
-that the client offered.  When the configured header was filled through `http.Header`'s own methods
+that the client offered on any of its `Sec-WebSocket-Protocol` lines.  When the configured header was filled through `http.Header`'s own methods
 (all keys canonical) no extra line bears one of the five protected names, and every configured
 header of another name is sent with its first value. -/
 theorem response_fields (o : ServerOpt) (r : Request) (auth : Bool) (ext : Option Str)
@@ -140,7 +103,7 @@ theorem response_fields (o : ServerOpt) (r : Request) (auth : Bool) (ext : Optio
               ++ (if o.subProtocols = [] then [] else [(kProtocol, sp)])
               ++ extras
       ∧ (if o.subProtocols = [] then sp = []
-         else FirstCommon o.subProtocols (split (get r.header kProtocol)) sp)
+         else FirstCommon o.subProtocols (offered (vals r.header kProtocol)) sp)
       ∧ ((∀ e ∈ o.responseHeader, canon e.1 = e.1) →
           (∀ l ∈ extras, canon l.1 ∉ protectedNames) ∧
           (∀ e ∈ o.responseHeader, e.1 ∉ protectedNames →
@@ -151,19 +114,19 @@ theorem response_fields (o : ServerOpt) (r : Request) (auth : Bool) (ext : Optio
     · by_cases hs : o.subProtocols = []
       · simp only [hs, ↓reduceIte, Decision.accept.injEq] at h
         simp [hs, ← h.1, baseLines, acceptKey]
-      · by_cases hi : intersectionElem o.subProtocols (split (get r.header kProtocol)) = []
+      · by_cases hi : intersectionElem o.subProtocols (offer r) = []
         · simp [hs, hi] at h
         · simp only [hs, hi, ↓reduceIte, Decision.accept.injEq] at h
           simp [hs, ← h.1, ← h.2, baseLines, acceptKey]
     · by_cases hs : o.subProtocols = []
       · simp only [hs, ↓reduceIte, Decision.accept.injEq] at h
         simp [hs, ← h.2]
-      · by_cases hi : intersectionElem o.subProtocols (split (get r.header kProtocol)) = []
+      · by_cases hi : intersectionElem o.subProtocols (offer r) = []
         · simp [hs, hi] at h
         · simp only [hs, hi, ↓reduceIte, Decision.accept.injEq] at h
           simp only [hs, ↓reduceIte, ← h.2]
-          rcases intersectionElem_spec o.subProtocols (split (get r.header kProtocol))
-            (fun x hx => mem_split_ne_nil hx) with ⟨h0, -⟩ | ⟨-, hf⟩
+          rcases intersectionElem_spec o.subProtocols (offer r)
+            (fun x hx => mem_offered_ne_nil hx) with ⟨h0, -⟩ | ⟨-, hf⟩
           · exact absurd h0 hi
           · exact hf
     · intro hcanon
@@ -175,7 +138,7 @@ theorem response_fields (o : ServerOpt) (r : Request) (auth : Bool) (ext : Optio
         exact this.2
       · intro e he hne
         refine List.mem_map.2 ⟨e, mem_deleteProtected.2 ⟨he, hne⟩, ?_⟩
-        simp only [get, hcanon e he, values_deleteProtected _ _ hne]
+        simp only [get, vals, hcanon e he, values_deleteProtected _ _ hne]
   · obtain ⟨e, he⟩ := serverDecide_of_not_pass (o := o) (ext := ext) hp
     rw [he] at h
     cases h
@@ -247,6 +210,14 @@ example :
                (kExtensions, asc "permessage-deflate"),
                (kAccept, asc "s3pPLMBiTxaQ9kYGzzhZRbK+xOo="), (kProtocol, asc "chat"),
                (asc "X-Served-By", asc "gws")] (asc "chat") := by decide +kernel
+-- the token is found in any letter case, between spaces and tabs, on a later line; letters around it
+-- do not count; a sub-protocol offered on a second line is seen
+example : (serverDecide ⟨[], []⟩ (sampleRequest [asc "keep-alive", asc " \tuPgRaDe\t , x"] [asc "websocket"] []) true none).isAccept = true := by
+  decide +kernel
+example : serverDecide ⟨[], []⟩ (sampleRequest [asc "upgradex", asc "no-upgrade", asc "keep-alive, upgrades"] [asc "websocket"] []) true none
+    = .reject .handshake := by decide +kernel
+example : (serverDecide ⟨[asc "chat"], []⟩ (sampleRequest [asc "Upgrade"] [asc "websocket"] [asc "mqtt", asc "x, chat"]) true none).isAccept = true := by
+  decide +kernel
 -- every reject reason is reachable
 example : serverDecide ⟨[], []⟩ (sampleRequest [asc "Upgrade"] [asc "websocket"] []) false none
     = .reject .unauthorized := by decide +kernel
